@@ -86,6 +86,9 @@ def _same_events(got, exp):
         if g[0] == "sleep":
             if not _close(g[1], e[1]):
                 return False
+        elif g[0] == "instr":
+            if tuple(g[:3]) != tuple(e[:3]):  # channel and program; the bank is not part of the property
+                return False
         elif tuple(g) != tuple(e):
             return False
     return True
